@@ -99,9 +99,26 @@ func oracleC01(ctx *progCtx) {
 		errs := typeCheckWith(ctx, map[string]string{drive.GoFileName(t): res.GoFixed})
 		if len(errs) > 0 {
 			seen := map[string]bool{}
+			// names N of "field and method with the same name N": errors about
+			// the selector .N resolving to the method are consequences of it
+			var clash []string
+			for _, e := range errs {
+				if i := strings.Index(e, "field and method with the same name "); i >= 0 {
+					clash = append(clash, strings.TrimSpace(e[i+len("field and method with the same name "):]))
+				}
+			}
 			for _, e := range errs {
 				if strings.Contains(e, "other declaration of") {
 					continue // companion note of a "redeclared" error
+				}
+				consequent := false
+				for _, n := range clash {
+					if strings.Contains(e, "."+n+" (value of type func") {
+						consequent = true
+					}
+				}
+				if consequent {
+					continue
 				}
 				sig := "go-typecheck:" + strings.TrimSuffix(t, "-sets") + ":" + normalizeCompileError(e)
 				if seen[sig] {
